@@ -204,26 +204,35 @@ def analyse(unit, path, report, res):
     return {"unit": unit, "verified": vr.get("verified", 0), "errors": vr.get("errors", 0), "failures": failures, "internal": internal, "rlimited": rlimited, "functions": fres, "wall": res["wall"], "cmd": res["cmd"], "smt_ms": js.get("times-ms", {}).get("smt", {}).get("total"), "total_ms": js.get("times-ms", {}).get("total")}
 
 
-def verify_unit(unit, scratch):
+def verify_unit(unit, scratch, tier="quick"):
     path, report = build_unit(unit, scratch)
     res = run_verus(path)
     an = analyse(unit, path, report, res)
     an["report"] = report
     an["path"] = path
-    if an["failures"] or an["rlimited"]:
-        # confirmation runs: a failure is reported only if it fails every time
-        confirmed = {(f["label"], f["msg"], f["line"]) for f in an["failures"]}
-        labels_failed_every_time = {f["label"] for f in an["failures"]} | {f["label"] for f in an["rlimited"]}
-        real = {f["label"] for f in an["failures"]}
+    an["stability_runs"] = 1
+    key = lambda f: f.get("label") or ("<framework> line %s" % f.get("line"))
+    if an["failures"] or an["rlimited"] or an["internal"] or tier == "thorough":
+        # confirmation runs under other solver seeds: a failure (of an obligation of the code or
+        # of a lemma of the framework) is reported only if it happens every time; the thorough
+        # tier always does them, as a stability check of the proofs
+        first_fail = {key(f) for f in an["failures"] + an["internal"]}
+        first_all = first_fail | {key(f) for f in an["rlimited"]}
+        failed_every_time = set(first_all)
+        real = set(first_fail)
+        seen_any = set(first_all)
         for seed in (7, 1234567):
             r2 = analyse(unit, path, report, run_verus(path, seed=seed))
-            now = {f["label"] for f in r2["failures"]} | {f["label"] for f in r2["rlimited"]}
-            labels_failed_every_time &= now
-            real |= {f["label"] for f in r2["failures"]}
-        an["failures"] = [f for f in an["failures"] if f["label"] in labels_failed_every_time]
-        keep_rl = [f for f in an["rlimited"] if f["label"] in labels_failed_every_time and f["label"] not in real]
-        an["flaky"] = sorted({f[0] for f in confirmed if f[0] not in labels_failed_every_time} - {None})
-        an["rlimited"] = keep_rl
+            now_fail = {key(f) for f in r2["failures"] + r2["internal"]}
+            now = now_fail | {key(f) for f in r2["rlimited"]}
+            failed_every_time &= now
+            real |= now_fail
+            seen_any |= now
+            an["stability_runs"] += 1
+        an["failures"] = [f for f in an["failures"] if key(f) in failed_every_time]
+        an["internal"] = [f for f in an["internal"] if key(f) in failed_every_time]
+        an["rlimited"] = [f for f in an["rlimited"] if key(f) in failed_every_time and key(f) not in real]
+        an["flaky"] = sorted(seen_any - failed_every_time)
     return an
 
 
@@ -417,7 +426,7 @@ def _check(prop, cfg, tier, seed, scratch, t0):
     unit_results = []
     deferred = []   # no-verdict reasons from the deductive part; the bounded stand-in still runs
     with concurrent.futures.ThreadPoolExecutor(max_workers=max(1, len(units))) as ex:
-        futs = {u: ex.submit(verify_unit, u, scratch) for u in units}
+        futs = {u: ex.submit(verify_unit, u, scratch, tier) for u in units}
         for u in units:
             try:
                 unit_results.append(futs[u].result())
@@ -626,6 +635,7 @@ def build_evidence(prop, cfg, tier, seed, wall, obligations, discharged, fn_rows
         "vacuity_canaries": canaries,
         "extraction": {an["unit"]: {"template": os.path.relpath(an["report"]["template"], VERIF), "items": [{"label": i["label"], "file": i.get("file"), "lines": i.get("lines"), "sha256": i.get("sha256"), "rules": sorted({e["rule"] for e in i.get("edits", [])})} for i in an["report"]["items"]], "dropped": "attributes, doc comments, derives not listed in //@derive, #[cfg(test)] modules, Display/Error impls for error types, every dependency body (declared as contract stubs)"} for an in unit_results},
         "flaky_retries": {an["unit"]: an.get("flaky", []) for an in unit_results if an.get("flaky")},
+        "solver_seeds_tried": {an["unit"]: an.get("stability_runs", 1) for an in unit_results},
         "explanation": "obligations = functions of /repo extracted mechanically on this run and verified against their contracts (one Verus query set per function: pre/postconditions, loop invariants, termination, overflow, bounds) plus complete Kani harnesses; bounded stand-ins are reported under `bounded` and never added to obligations/discharged",
     }
     if kani_results:
